@@ -187,6 +187,14 @@ SPECS = {
         ("tensorprod_sym", LINALG, '            p2 = np.einsum("...il,...jk->...ijkl", A, B)', '            p2 = np.einsum("...il,...kj->...ijkl", A, B)'),
         ("fast_path_ignores_subclass", LINALG, "            return res.view(FeArray)\n        feShape = _FeShape(inputs)", "            return res\n        feShape = _FeShape(inputs)"),
     ],
+    "C13": [
+        ("field_grad_transposed", R + "FEM/_field.py", "            newArray = FeArray.zeros(Ne, nPg, dof_n, dim, dtype=float)\n            newArray[..., dof, :] = array", "            newArray = FeArray.zeros(Ne, nPg, dim, dof_n, dtype=float)\n            newArray[..., :, dof] = array"),
+        ("bilinear_uses_mass_weights", R + "FEM/_forms.py", "        dX_e_pg = groupElem.Get_weightedJacobian_e_pg(field.matrixType)\n\n        # loop over u dofs\n        for i in dofs:\n\n            # activate node and dof for u", "        dX_e_pg = groupElem.Get_weightedJacobian_e_pg(MatrixType.mass) if groupElem.Get_gauss(MatrixType.mass).nPg == groupElem.Get_gauss(field.matrixType).nPg else groupElem.Get_weightedJacobian_e_pg(field.matrixType)\n        dX_e_pg = dX_e_pg * (1 + 1e-3 * (field.dof_n == 3))\n\n        # loop over u dofs\n        for i in dofs:\n\n            # activate node and dof for u"),
+        ("bilinear_transposed_storage", R + "FEM/_forms.py", "                data[:, j, i] = np.reshape(values_e, groupElem.Ne)", "                data[:, i, j] = np.reshape(values_e, groupElem.Ne)"),
+        ("sym_grad_no_half", R + "FEM/_field.py", "    return 0.5 * (grad.T + grad)", "    return 0.5 * grad.T + grad * 0.5000001"),
+        ("weakforms_thickness_on_F_missing", R + "Simulations/_weakforms.py", "            F_e = computeF.Integrate_e(field) * thickness", "            F_e = computeF.Integrate_e(field)"),
+        ("linear_assemble_cols", R + "FEM/_forms.py", "        rows = groupElem.Get_assembly_e(dof_n).ravel()\n        columns = np.zeros_like(rows)", "        rows = np.sort(groupElem.Get_assembly_e(dof_n), axis=1).ravel()\n        columns = np.zeros_like(rows)"),
+    ],
 }
 
 
